@@ -6,6 +6,7 @@ Expires/Max-Age under a pinned clock in five process time zones."""
 import calendar
 import itertools
 import os
+import shutil
 import time
 
 from ..core.result import R
@@ -40,6 +41,7 @@ def shards(tier, seed):
         out += [("two_full", n, i) for n in range(3) for i in range(len(SPECIAL))]
     out.append(("sets",))
     out.append(("attrnames",))
+    out.append(("misc",))
     out.append(("long",))
     out.append(("reuse",))
     out += [("expiry", z) for z in ZONES]
@@ -192,6 +194,57 @@ def reuse_sequences(r):
     r.sample({"reuse": [["set", "a", "1"], "emit", ["delete", "a"], "emit"]})
 
 
+def mutated_request_cookies(r):
+    """A handler changes its own request.cookies mapping (pops a flash message, fills in a default); a later request that carries
+    the very same Cookie header still sees every cookie it sent and nothing it did not send."""
+    header = 'flash=hello; sid=abc; theme="da rk"'
+    want = {"flash": "hello", "sid": "abc", "theme": "da rk"}
+    for iface in ("wsgi", "asgi"):
+        for first in (lambda c: c.pop("flash", None), lambda c: c.setdefault("lang", "en"), lambda c: c.update(sid="changed"), lambda c: c.clear()):
+            for hdr, exp in ((header, want), ("", {})):
+                r.count("evaluations")
+                r.count("distinct_nontrivial")
+                w = {"kind": "mutated", "iface": iface, "header": hdr}
+                try:
+                    c1 = read_cookies(iface, hdr)
+                    first(c1)
+                    c2 = dict(read_cookies(iface, hdr))
+                except Exception as e:  # noqa
+                    r.violation(f"mutated:exception:{type(e).__name__}", w, f"{iface} request.cookies raised {e!r:.100}")
+                    continue
+                if c2 != exp:
+                    r.violation("mutated:leaks-into-later-request", w, f"{iface}: after an earlier request's handler changed its own cookies mapping, a later request with Cookie: {hdr!r} sees {c2!r}, sent {exp!r}")
+
+
+def file_response_cookies(r):
+    """Cookies set or deleted on a file response reach the client whatever part of the file was asked for."""
+    import tempfile
+    d = tempfile.mkdtemp(prefix="c16-", dir=os.environ.get("VERIF_SCRATCH", "/tmp"))
+    try:
+        p = os.path.join(d, "f.bin")
+        with open(p, "wb") as f:
+            f.write(bytes(range(20)))
+        for iface in ("wsgi", "asgi"):
+            mod = __import__("baize.wsgi" if iface == "wsgi" else "baize.asgi", fromlist=["FileResponse"])
+            for rng in (None, "bytes=2-5", "bytes=0-1,5-8", "bytes=40-", "junk"):
+                for method in ("GET", "HEAD"):
+                    resp = mod.FileResponse(p, chunk_size=4)
+                    resp.set_cookie("downloaded", "y;es")
+                    resp.delete_cookie("token")
+                    req = SV.AReq(method=method, headers=[("Range", rng)] if rng else [])
+                    res = SV.run_wsgi(resp, SV.to_environ(req)) if iface == "wsgi" else SV.run_asgi(resp, SV.to_scope(req), SV.to_messages(req))
+                    r.count("evaluations")
+                    r.count("distinct_nontrivial")
+                    w = {"kind": "filecookies", "iface": iface, "range": rng, "method": method}
+                    lines = [v for k, v in res.headers if k.lower() == "set-cookie"]
+                    if res.exc is not None:
+                        r.violation(f"filecookies:exception:{type(res.exc).__name__}", w, f"{iface} FileResponse with cookies, {method} Range={rng!r}: {res.exc!r:.100}")
+                    elif res.status in (200, 206) and (len(lines) != 2 or not any(l.startswith("downloaded=") for l in lines) or not any(l.startswith("token=") and "max-age=0" in l.lower() for l in lines)):
+                        r.violation("filecookies:missing", w, f"{iface} FileResponse with set_cookie and delete_cookie, {method} Range={rng!r} (status {res.status}): Set-Cookie lines {lines!r}")
+    finally:
+        shutil.rmtree(d, ignore_errors=True)
+
+
 def parse_attrs(line):
     parts = line.split("; ")
     attrs = {}
@@ -299,6 +352,15 @@ def run_shard(desc, tier):
                 roundtrip(r, name, value, "attr-name", full=False)
                 roundtrip(r, name, value, "attr-name", full=True)
         r.sample({"name": "path", "value": "x", "attributes": "default and all"})
+    elif desc[0] == "misc":
+        # percent signs and strftime-like text, with and without an Expires attribute (whose date is made with strftime)
+        for value in ["%", "%%", "100%", "%2Fhome%3Fx%3D1", "%d-%m-%Y", "%s", "%Y", "%a, %d %b", "a%3Db", "%0", "%z%Z", "50%-off", "%E4%B8%AD"]:
+            for name in ("a", "p%", "%Y"):
+                roundtrip(r, name, value, "percent", full=False)
+                roundtrip(r, name, value, "percent", full=True)
+        mutated_request_cookies(r)
+        file_response_cookies(r)
+        r.sample({"name": "a", "value": "%d-%m-%Y", "attributes": "default and all"})
     elif desc[0] == "long":
         for unit in ("é", ";", "a", '"', "\\", " x"):
             for n in (255, 1023, 1024, 1025, 4095, 5000):
@@ -321,7 +383,11 @@ def finish(merged, tier):
 def replay(w):
     r = R()
     if w["kind"] == "roundtrip":
-        roundtrip(r, w["name"], w["value"], "replay")
+        roundtrip(r, w["name"], w["value"], "replay", full=w.get("full", False))
+    elif w["kind"] == "mutated":
+        mutated_request_cookies(r)
+    elif w["kind"] == "filecookies":
+        file_response_cookies(r)
     elif w["kind"] == "reuse":
         reuse_sequences(r)
     elif w["kind"] == "set":
